@@ -65,7 +65,13 @@ def rand_printable(rng):
             a = rng.randint(0, len(s))
             b = rng.randint(a, len(s))
             if b > a:
-                spans.append((G.definition(G.rand_record(rng, p_attr=0.1, p_link=0.25)), a, b))
+                rec = G.rand_record(rng, p_attr=0.1, p_link=0.25)
+                if rec["link"] and rng.random() < 0.3:
+                    # characters that mean something inside an HTML attribute or tag
+                    rec["link"] = rng.choice(['https://example.org/?q="><i>injected</i>', "https://example.org/a>b",
+                                              "https://example.org/?a=1&b=2&amp;c", "https://example.org/it's",
+                                              'file:///tmp/"quoted".txt'])
+                spans.append((G.build(rec), a, b))
         return ("text", {"s": s, "spans": spans})
     if r < 0.65:
         return ("markup", rng.choice(["[bold]bold[/bold] plain", "[red on white]x < y & z[/] tail",
@@ -137,9 +143,16 @@ def apply(console, op):
         console.show_cursor(op[1])
     elif k == "control":
         console.control(op[1])
+    elif k in ("capture", "capture_raises"):
+        # a capture block inside a capture block: each returns what was printed in it (the results are kept on the
+        # console object and compared with the twin's)
+        with console.capture() as cap:
+            for sub in op[1]:
+                apply(console, sub)
+        console.__dict__.setdefault("_rv_caps", []).append(cap.get())
 
 
-def rand_op(rng, allow_capture=True):
+def rand_op(rng, allow_capture=True, depth=0):
     r = rng.random()
     if r < 0.42:
         kw = {}
@@ -194,7 +207,7 @@ def rand_op(rng, allow_capture=True):
     if r < 0.73:
         return ["control", rng.choice(["\x1b[1A", "\x1b[2K", "\r"])]
     if r < 0.83 and allow_capture:
-        subs = [rand_op(rng, False) for _ in range(rng.randint(1, 3))]
+        subs = [rand_op(rng, depth == 0 and rng.random() < 0.35, depth + 1) for _ in range(rng.randint(1, 3))]
         return ["capture" if rng.random() < 0.8 else "capture_raises",
                 [o for o in subs if not o[0].startswith("export")] or [["line", 1]]]
     if r < 0.92:
@@ -319,6 +332,14 @@ def wl_histories(ctx, rng, case_no):
             # (the twin's record still contains it; the twin's record is never exported)
             ctx.count("mon.capture_twin")
             captured_any = True
+            inner_main, inner_twin = main.__dict__.pop("_rv_caps", []), twin.__dict__.pop("_rv_caps", [])
+            ref.__dict__.pop("_rv_caps", None)
+            if inner_main or inner_twin:
+                ctx.count("mon.nested_capture")
+                if [norm(x) for x in inner_main] != [norm(x) for x in inner_twin]:
+                    ctx.violation("inner-capture-differs-from-what-was-printed-inside-it",
+                                  dict(wit, inner=inner_main, want_inner=inner_twin))
+                    return
             if norm(got) != norm(want):
                 ctx.violation("capture-differs-from-what-would-have-been-written", dict(wit, got=got, want=want))
                 return
